@@ -201,6 +201,9 @@ func evaluate(c *fw.Ctx, id string, d *logical.Doc, format string, neutral map[s
 				// the same reader first serves filtered views: they must not disturb the plain one
 				r.MarkdownWithOptions(docx.ExtractOptions{ExcludeHeaders: true, ExcludeFooters: true})
 				r.TextWithOptions(docx.ExtractOptions{ExcludeHeaders: true})
+				r.Tables()
+				r.ModelTables()
+				r.Lists()
 				md2, err2 = r.Markdown()
 				r.Close()
 			}
@@ -211,6 +214,9 @@ func evaluate(c *fw.Ctx, id string, d *logical.Doc, format string, neutral map[s
 			} else {
 				r.MarkdownWithOptions(odt.ExtractOptions{ExcludeHeaders: true, ExcludeFooters: true})
 				r.TextWithOptions(odt.ExtractOptions{ExcludeFooters: true})
+				r.Tables()
+				r.ModelTables()
+				r.Lists()
 				md2, err2 = r.Markdown()
 				r.Close()
 			}
